@@ -171,10 +171,10 @@ PROPS['C03'] = dict(
 PROPS['C06'] = dict(
     id='C06', domains=['trunc', 'unm'], no_model={'trunc': True},
     n=dict(quick=dict(trunc=120, unm=1500), thorough=dict(trunc=1500, unm=60000)),
-    theorems=[('Properties.C06', ['C06_complete_header_section_survives_any_remainder', 'C06_cut_at_the_end_of_record_marker_is_reported', 'C06_complete_marker_is_accepted', 'C06_complete_records_before_the_cut_survive', 'C06_cut_inside_block_or_marker_is_visible', 'C06_every_cut_of_a_record_is_visible'])],
+    theorems=[('Properties.C06', ['C06_complete_header_section_survives_any_remainder', 'C06_cut_at_the_end_of_record_marker_is_reported', 'C06_complete_marker_is_accepted', 'C06_complete_records_before_the_cut_survive', 'C06_cut_inside_block_or_marker_is_visible', 'C06_every_cut_of_a_record_is_visible', 'C06_gzip_whole_members_before_the_cut_survive', 'C06_gzip_cut_member_is_never_a_clean_record'])],
     kinds={'panic', 'hang', 'wellformed-file-not-clean', 'complete-record-lost', 'partial-record-clean', 'truncation-invisible'},
     rule='trunc: well-formed files of 1-3 records (all block kinds, plain or per-record gzip), read under warn or strict: 50 seeded cut positions plus 19 positions around every record boundary per file (thorough: EVERY cut position): records wholly inside the prefix come back unaltered, clean and at the same offsets; nothing clean after them; a cut inside a record is visible (non-EOF error, finding, or EOF offset < prefix length); unm: model correspondence incl. cut gzip members',
-    level_text='Proved in Coq for plain (uncompressed) files, PARTIAL for the gzip container. (survival) for every sequence of valid records followed by ANY remainder (the prefix of a cut record, junk, nothing) and any stream tail, sequential reading returns exactly those records, clean and at their offsets, then continues on the remainder; (visibility) for every valid record and EVERY cut position - inside the magic bytes, the version line, the header section, the block or the end-of-record marker - reading the non-empty proper prefix under a spec policy of warn or fail never yields a record that is clean and without findings: an error, a finding, or end-of-file before the end of the data is always produced (C06_every_cut_of_a_record_is_visible). The header case rests on two lemmas: for any input, a successful header parse that leaves input unread has seen an empty line; a proper prefix of the serialisation of well-formed fields contains none. Not mechanised: the gzip container (a cut member is an error of the decompressor, an oracle) - evaluated on the implementation for the sampled (quick) or all (thorough) cut positions of plain and gzip files',
+    level_text='Proved in Coq. Plain files: (survival) for every sequence of valid records followed by ANY remainder and any stream tail, sequential reading returns exactly those records, clean and at their offsets, then continues on the remainder; (visibility) for every valid record and EVERY cut position - magic bytes, version line, header section, block, end-of-record marker - reading the non-empty proper prefix under a spec policy of warn or fail never yields a record that is clean and without findings (C06_every_cut_of_a_record_is_visible; the header case rests on: for any input a successful header parse that leaves input unread has seen an empty line, and a proper prefix of the serialisation of well-formed fields has none). Per-record gzip files, at the abstraction level of the model (the decompressor is an oracle: a file is a list of members given by what they decompress to and whether they are whole): whole members holding valid records are returned as those records at their compressed offsets whatever follows, and a member cut anywhere is never returned as a clean record. PARTIAL only in what the model cannot exhibit: the decompressor itself (observed on the implementation for sampled / all cut positions of plain and gzip files)',
     level_note='Trusted: Coq kernel, extraction (ExtrOcamlBasic), harness and generators. Oracles: hash functions (Python hashlib), base32/base64 decoders, mime.WordDecoder, net/http header parsing, whatwg-url, net.ParseIP, time.Parse, Unicode case mapping; klauspost gzip (a member is its payload; a cut member yields a payload prefix then io.ErrUnexpectedEOF). bufio.Reader is remaining bytes + a persistent tail condition. Findings are compared by coarse kind derived from error texts. A cut exactly at a record boundary leaves a well-formed file and is not required to be visible.',
     assumptions=[],
 )
@@ -191,10 +191,10 @@ PROPS['C07'] = dict(
 PROPS['C08'] = dict(
     id='C08', domains=['coh', 'hparse', 'validate', 'unm', 'build'], no_model={'coh': True},
     n=dict(quick=dict(coh=1500, hparse=800, validate=300, unm=600, build=600), thorough=dict(coh=60000, hparse=30000, validate=20000, unm=20000, build=20000)),
-    theorems=[('Properties.C08', ['C08_header_fail_is_first_warn_finding', 'C08_header_ignore_no_findings', 'C08_header_warn_never_errors', 'C08_digest_verification_coherent', 'C08_no_axis_at_warn_parser_adds_no_finding', 'C08_no_axis_at_warn_builder_adds_no_finding', 'C08_uniform_ignore_and_uniform_fail_are_covered'])],
+    theorems=[('Properties.C08', ['C08_header_fail_is_first_warn_finding', 'C08_header_ignore_no_findings', 'C08_header_warn_never_errors', 'C08_digest_verification_coherent', 'C08_no_axis_at_warn_parser_adds_no_finding', 'C08_no_axis_at_warn_builder_adds_no_finding', 'C08_uniform_ignore_and_uniform_fail_are_covered', 'C08_parser_fail_errs_exactly_when_warn_finds_or_errs', 'C08_builder_fail_errs_exactly_when_warn_finds_or_errs'])],
     kinds={'panic', 'policy-incoherent'},
     rule='coh: mutated record streams (parser, plain/gzip) and builder inputs with declared lengths/digests; each run under uniform ignore / warn / fail (no findings under ignore; nil error under fail implies empty validation; fail errs iff warn has a finding or error; rejection monotone) and axis by axis (syntax, spec, unknown type, block) against the other axes as drawn; hparse/validate/unm/build: model correspondence under all policies',
-    level_text='PARTIAL proof. Proved in Coq for the WHOLE parser pipeline (record-start search, version line, header parser, header validation, parseBlock, length/digest verification, end-of-record marker) and the whole builder, for every input and every option setting with no axis at warn (uniform ignore, uniform fail, every mix): no stage adds a validation finding - so under ignore no finding is produced and under fail a nil error comes with an empty validation (sentences 1-2). Proved for header validation and for length/digest verification: fail returns exactly the first finding warn reports, warn never errors on a header defect (sentence 3 for these stages). Not mechanised: sentence 3 and the axis-by-axis monotonicity for the header parser, parseBlock and the marker check; evaluated on the implementation under uniform levels and all 81 axis settings for every generated input, the stage models being tied by the correspondence run. The defect that folded header lines ignored the policy was found here and repaired',
+    level_text='Proved in Coq for the WHOLE parser pipeline on plain streams (record-start search, version line, header parser, header validation, parseBlock, length/digest verification, end-of-record marker) and the whole builder, for every input: (sentences 1-2) with no axis at warn - uniform ignore, uniform fail, every mix - no stage adds a finding, so under ignore no finding is produced and under fail a nil error comes with an empty validation; (sentence 3) with all axes at one level, fail returns an error exactly when warn produces at least one finding or an error - the two runs proceed in lock step until the first finding, stage by stage. PARTIAL: the last sentence (axis-by-axis monotonicity under mixed settings) and the gzip container are not mechanised; they are evaluated on the implementation under all 81 axis settings for every generated input, the stage models being tied by the correspondence run. The defect that folded header lines ignored the policy was found here and repaired',
     level_note='Trusted: Coq kernel, extraction (ExtrOcamlBasic), harness and generators. Oracles: hash functions (Python hashlib), base32/base64 decoders, mime.WordDecoder, net/http header parsing, whatwg-url, net.ParseIP, time.Parse, Unicode case mapping; klauspost gzip (a member is its payload; a cut member yields a payload prefix then io.ErrUnexpectedEOF). bufio.Reader is remaining bytes + a persistent tail condition. Findings are compared by coarse kind derived from error texts. ',
     assumptions=[],
 )
